@@ -258,3 +258,33 @@ def install(reg):
     _install4(reg)
     reg.models = [(p, (GraphModel3() if isinstance(m, GraphModel2) else m)) for p, m in reg.models]
     reg.globals["pint_available"] = lambda eng, st: vbool(z3.Bool("pint_available"))
+
+
+bdd_card = z3.Function("bdd_cardinality", T.Bdd, I)
+bdd_not = z3.Function("bdd_l_not", T.Bdd, T.Bdd)
+setcard = z3.Function("setcard_Name", z3.ArraySort(Name, B), I)
+TRUSTED["aeon.Bdd.cardinality / l_not"] = "number of satisfying valuations / negation (only used for a heuristic choice)"
+
+
+class BddModel2(BddModel):
+    def method(self, eng, st, v, meth, args, kw, node, recv_expr=None):
+        if meth == "cardinality":
+            return vint(bdd_card(v.t))
+        if meth == "l_not":
+            return Val(TBdd, bdd_not(v.t))
+        return super().method(eng, st, v, meth, args, kw, node, recv_expr)
+
+
+_install5 = install
+
+
+def install(reg):
+    _install5(reg)
+    reg.models = [(p, (BddModel2() if isinstance(m, BddModel) else m)) for p, m in reg.models]
+
+    def size_of(eng, st, v, node):
+        if isinstance(v.ty, TSet) and v.ty.elem == TName:
+            st.assume(setcard(v.t) >= 0)
+            return vint(setcard(v.t))
+        return None
+    reg.add_hook("size_of", size_of)
